@@ -159,7 +159,95 @@ def core_match_attr_table(model):
                     for a in _const_alternatives(n.value):
                         if a not in alts:
                             alts.append(a)
+    # ... and what match_link_image, interpreted with its scanners stubbed, is seen to set on the matches it returns
+    # (attributes set through a helper, setattr or keyword arguments are not visible as `match.x = ...`)
+    try:
+        for r in simulate_link_matches(model):
+            for name, v in r.attrs.items():
+                if name.startswith('_') or name in ('fields', 'type'):
+                    continue
+                if v is None or isinstance(v, (str, bool, int)):
+                    a = v
+                elif isinstance(v, AbsStr) and isinstance(v.prov, tuple) and v.prov and v.prov[0] == 'idx' \
+                        and not (isinstance(v.prov[1], tuple) and v.prov[1] and v.prov[1][0] == 'slice'):
+                    a = '<doc-char>'
+                else:
+                    a = '<doc>'
+                alts = table.setdefault(name, [])
+                if a not in alts:
+                    alts.append(a)
+    except (InterpError, PathLimit):
+        pass
     return table
+
+
+class FoundSomething(AbstractValue):
+    """The (successful) result of a scanner whose result layout is its own business: unpacks to whatever arity is asked
+    for, indexes to more of the same; used as a string it is text taken from the document."""
+    prov = ('found',)
+
+    def abs_unpack(self, interp, n):
+        return [FoundSomething() for _ in range(n)]
+
+    def abs_getitem(self, interp, idx):
+        return FoundSomething()
+
+    def abs_truth(self, interp):
+        return True
+
+    def abs_is(self, interp, other):
+        return False if other is None else self is other
+
+    def abs_binop(self, interp, op, other, reflected):
+        return AbsInt('found-op')
+
+    def abs_compare(self, interp, op, other, reflected):
+        return Unknown('found-cmp')
+
+    def abs_getattr(self, interp, name):
+        return Unknown('found.' + name)
+
+
+def simulate_link_matches(model, max_paths=4000):
+    """The match objects core_tokens.match_link_image can return, with its scanners replaced by stubs that either
+    find what they look for or do not."""
+    f = model.func('core_tokens.match_link_image')
+    names = {}
+    for n in ('follows', 'match_link_dest', 'match_link_title', 'match_link_label', 'get_link_label', 'shift_whitespace'):
+        if model.has_func('core_tokens.' + n):
+            names[n] = model.func('core_tokens.' + n)
+    out = []
+
+    def runner(oracle):
+        it = Interp(model, loop_bound=1)
+        it.reset_run(oracle)
+        if 'follows' in names:
+            it.func_hooks[names['follows'].qualname] = lambda interp, fi, args, kwargs: Cond(('follows', _freeze(args[1]), args[2]))
+        if 'shift_whitespace' in names:
+            it.func_hooks[names['shift_whitespace'].qualname] = lambda interp, fi, args, kwargs: AbsInt('ws')
+        if 'match_link_dest' in names:
+            it.func_hooks[names['match_link_dest'].qualname] = lambda interp, fi, args, kwargs: (
+                (AbsInt('ds'), AbsInt('de'), AbsStr(label='dest')) if interp.oracle.decide(None, 'dest-found') else None)
+        if 'match_link_title' in names:
+            it.func_hooks[names['match_link_title'].qualname] = lambda interp, fi, args, kwargs: (
+                (AbsInt('ts'), AbsInt('te'), AbsStr(label='title')) if interp.oracle.decide(None, 'title-found') else None)
+        if 'match_link_label' in names:
+            # the scanner's own result layout: interpreted on a stubbed table, found or not
+            it.func_hooks[names['match_link_label'].qualname] = lambda interp, fi, args, kwargs: (
+                FoundSomething() if interp.oracle.decide(None, 'label-lookup-found') else None)
+        if 'get_link_label' in names:
+            it.func_hooks[names['get_link_label'].qualname] = lambda interp, fi, args, kwargs: (
+                (AbsStr(label='d'), AbsStr(label='t')) if interp.oracle.decide(None, 'text-lookup-found') else None)
+        delim = Obj(model.cls('core_tokens.Delimiter'), {'type': Choice.pick(it, 'dtype', ['[', '![']), 'start': AbsInt('s'),
+                                                         'number': AbsInt('n')})
+        try:
+            return it.call_function(f, [AbsStr(label='string'), AbsInt('offset'), delim, Unknown('root')], {})
+        except Raised:
+            return None
+    for trace, r in enumerate_paths(runner, max_paths):
+        if isinstance(r, Obj):
+            out.append(r)
+    return out
 
 
 def _const_alternatives(e):
